@@ -8,6 +8,7 @@ import (
 	"fmt"
 	"math/rand"
 	"reflect"
+	"runtime"
 	"sort"
 	"strings"
 	"sync"
@@ -89,24 +90,24 @@ type kdAPI interface {
 }
 
 type kdDriver struct {
-	x       *sched.Exec
-	sc      kdScenario
-	mu      sync.Mutex
-	api     kdAPI
-	kd      *keyed.Keyed[int, int]
-	rc      *keyed.KeyedRefCount[int, int]
-	ctxs    map[int]context.Context
-	cancels []context.CancelFunc
-	ntok    int
-	insts   []*kdInst
-	instOf  map[string]int // actor name -> instance id (tok*100 + ordinal of the execute goroutine for that token)
-	tokOf   map[string]int // actor name -> constructor token of the record it works for
-	cnt     map[int]int
-	nfall   int
-	refs    []*keyed.KeyedRef[int, int]
-	nops    int
+	x        *sched.Exec
+	sc       kdScenario
+	mu       sync.Mutex
+	api      kdAPI
+	kd       *keyed.Keyed[int, int]
+	rc       *keyed.KeyedRefCount[int, int]
+	ctxs     map[int]context.Context
+	cancels  []context.CancelFunc
+	ntok     int
+	insts    []*kdInst
+	instOf   map[string]int // actor name -> instance id (tok*100 + ordinal of the execute goroutine for that token)
+	tokOf    map[string]int // actor name -> constructor token of the record it works for
+	cnt      map[int]int
+	nfall    int
+	refs     []*keyed.KeyedRef[int, int]
+	nops     int
 	lastSnap string
-	lastQ   int
+	lastQ    int
 }
 
 func init() { Register("keyed", func() Driver { return &kdDriver{} }) }
@@ -481,8 +482,90 @@ func (d *kdDriver) outMoves(seq bool) []sched.Move {
 	return ms
 }
 
+// runBurst is mode M2 for the reference-counted variant: clients add and release references freely
+// in parallel (no parking); only the order-insensitive claim "a key is present while at least one
+// unreleased reference exists" is judged, once, at the final exact quiescent point.
+func (d *kdDriver) runBurst(x *sched.Exec) json.RawMessage {
+	rc := keyed.NewKeyedRefCount(func(key int) (keyed.Routine, int) {
+		return func(ctx context.Context) error { <-ctx.Done(); return nil }, key
+	})
+	ctx, cancel := context.WithCancel(context.Background())
+	rc.SetContext(ctx, false)
+	x.Policy = func(*sched.Actor, string, string, any) bool { return false }
+	x.Log(trace.E{"ev": "rcburst"})
+	type held struct {
+		ref *keyed.KeyedRef[int, int]
+		key int
+	}
+	var mu sync.Mutex
+	var kept []held
+	ncl := 2 + x.Rng.Intn(3)
+	nkeys := 1 + x.Rng.Intn(2)
+	for i := 0; i < ncl; i++ {
+		c := x.NewClient(fmt.Sprintf("c%d", i+1))
+		r := rand.New(rand.NewSource(x.Seed*977 + int64(i)))
+		x.Issue(c, func() {
+			var mine []held
+			for n := 0; n < 80+r.Intn(80); n++ {
+				if len(mine) == 0 || (len(mine) < 2 && r.Intn(3) == 0) {
+					k := 1 + r.Intn(nkeys)
+					ref, _, _ := rc.AddKeyRef(k)
+					mine = append(mine, held{ref, k})
+				} else {
+					j := r.Intn(len(mine))
+					mine[j].ref.Release()
+					if r.Intn(4) == 0 {
+						mine[j].ref.Release()
+					}
+					mine = append(mine[:j], mine[j+1:]...)
+				}
+				// while this client holds an unreleased reference the key must be present
+				for _, h := range mine {
+					if _, ok := rc.GetKey(h.key); !ok {
+						x.Log(trace.E{"ev": "rcfinal", "held": []int{h.key}, "keys": []int{}})
+					}
+				}
+				if r.Intn(3) == 0 {
+					runtime.Gosched()
+				}
+			}
+			for len(mine) > 1 {
+				mine[len(mine)-1].ref.Release()
+				mine = mine[:len(mine)-1]
+			}
+			mu.Lock()
+			kept = append(kept, mine...)
+			mu.Unlock()
+		})
+	}
+	x.Labels = append(x.Labels, "burst")
+	synctest.Wait()
+	hk := map[int]bool{}
+	for _, h := range kept {
+		hk[h.key] = true
+	}
+	var hks []int
+	for k := range hk {
+		hks = append(hks, k)
+	}
+	sort.Ints(hks)
+	keys := ints(rc.GetKeys())
+	sort.Ints(keys)
+	x.Log(trace.E{"ev": "rcfinal", "held": ints(hks), "keys": keys})
+	for _, h := range kept {
+		h.ref.Release()
+	}
+	cancel()
+	rc.ClearContext()
+	synctest.Wait()
+	return json.RawMessage(`{"mode":"rcburst"}`)
+}
+
 func (d *kdDriver) Run(x *sched.Exec, raw json.RawMessage) json.RawMessage {
 	d.x = x
+	if raw == nil && strings.Contains(Opt, "rcburst") {
+		return d.runBurst(x)
+	}
 	if raw != nil {
 		if err := json.Unmarshal(raw, &d.sc); err != nil {
 			panic(err)
